@@ -375,6 +375,31 @@ pub fn run(g: &mut Global) {
         },
         &|c, ctx| crate::props::c13::check_mode(c, ctx, "C09", true, true),
     );
+    // one life past 2^16 inputs in which every power-of-two input count 2^8 ... 2^16 falls inside an exactly flat
+    // stretch (a periodic re-derivation of the second moment by the one-pass formula has a residue of either sign on
+    // a flat window of an ordinary, not exactly representable price: sqrt of a negative number exactly there)
+    g.exhaustive(
+        "flat_at_pow2_counts",
+        3 * 3 * 4,
+        &move |i| {
+            let kind = [Kind::Sd, Kind::Bb, Kind::Mad][(i % 3) as usize];
+            let n = [5usize, 20, 50][((i / 3) % 3) as usize];
+            let level = [1234.56f64, 99.99, 101.3, 1e9 + 0.37][(i / 9) as usize];
+            let mut st = seed ^ (i + 401).wrapping_mul(0x9E3779B97F4A7C15);
+            let len = 65_536 + 3 * n + 10;
+            let mut vals: Vec<f64> = (0..len).map(|_| level + ((unit(&mut st) * 200.0).round() - 100.0) / 100.0).collect();
+            for k in 8..=16u32 {
+                let c = 1usize << k;
+                let (a, b) = (c.saturating_sub(2 * n + 3), (c + n + 3).min(len));
+                let flat = vals[a];
+                for v in vals[a..b].iter_mut() {
+                    *v = flat;
+                }
+            }
+            Case { cfg: Cfg { kind, p: vec![n], m: X(2.0) }, scalar: true, xs: xs(&vals), bars: vec![] }
+        },
+        &check,
+    );
     if g.tier == Tier::Thorough {
         g.fuzz_stage("ops_pred", Some(2), 600_000, "random", &|b| crate::fuzzdec::decode_c09(b), &check);
     }
